@@ -67,7 +67,7 @@ func c08GfWalk(f *c08Gf, v *c08Gv, off int, fields *[]c08Field) (int, bool) {
 	case c08GfRaw:
 		return off + len(v.b), v.k == c08GvBytes
 	case c08GfHex2:
-		return off + 2, v.k == c08GvNum
+		return off + 2, v.k == c08GvNum || v.k == c08GvInt
 	case c08GfFramed:
 		o, ok := c08GfWalk(f.a, v, off+len(f.pre), fields)
 		return o + len(f.post), ok
@@ -227,10 +227,11 @@ var c08Fmts = func() map[string]*c08Gf {
 	poly := matOf(u64)
 	polyQP := c08FPair(poly, poly)
 	scale := c08FFramed(`{"Value":"`, c08FPair(c08FRaw(45), c08FFramed(`","Mod":"`, c08FRaw(45), "")), `"}`)
+	dim := c08FHex2().tagged("rlwe.PlaintextMetaData.UnmarshalJSON/LogDimensions-signed-byte-not-restored")
 	ptMeta := c08FFramed(`{"Scale":`, c08FPair(scale,
 		c08FFramed(`,"IsBatched":"0x`, c08FPair(c08FHex2(),
 			c08FFramed(`","IsBitReversed":"0x`, c08FPair(c08FHex2(),
-				c08FFramed(`","LogDimensions":["0x`, c08FPair(c08FHex2(), c08FFramed(`","0x`, c08FHex2(), "")), "")), "")), "")), `"]}`)
+				c08FFramed(`","LogDimensions":["0x`, c08FPair(dim, c08FFramed(`","0x`, dim, "")), "")), "")), "")), `"]}`)
 	flag := c08FHex2().tagged("rlwe.CiphertextMetaData.UnmarshalJSON/flags-not-reset")
 	ctMeta := c08FFramed(`{"IsNTT":"0x`, c08FPair(flag, c08FFramed(`","IsMontgomery":"0x`, flag, "")), `"}`)
 	meta := c08FFramed(`{"PlaintextMetaData":`, c08FPair(ptMeta, c08FFramed(`,"CiphertextMetaData":`, ctMeta, "")), `}`)
